@@ -72,7 +72,7 @@ def coord(draw):
 
 
 PT_KINDS = ["conv", "conv", "conv", "lb", "ub", "plb", "pub", "below_ulp", "above_ulp", "below_rel", "above_rel", "below10", "above10",
-            "mid", "gmean"]
+            "mid", "gmean", "near_plb", "near_pub"]
 
 
 def make_point(c, kind, t, k, is_log):
@@ -92,6 +92,11 @@ def make_point(c, kind, t, k, is_log):
         return plb
     if kind == "pub":
         return pub
+    if kind in ("near_plb", "near_pub"):
+        # a point at a relative distance of 1e-7 (t small) .. 1e-5 of the plausible width from a plausible bound, inside the hard box
+        base = plb if kind == "near_plb" else pub
+        off = (1e-7 + 1e-5 * t) * (pub - plb) * (1 if k % 2 else -1)
+        return min(max(base + off, lo), hi)
     if kind == "mid":
         return 0.5 * (plb + pub)
     if kind == "gmean":
@@ -275,11 +280,58 @@ def body(case):
 N = {"quick": 20000, "thorough": 600000}
 
 
+# ---- through BADS: the option value that enables nonlinear scaling may be any truthy spelling ----
+@st.composite
+def bads_cases(draw):
+    D = draw(st.integers(1, 3))
+    coords = [draw(coord()) for _ in range(D)]
+    for c in coords:
+        if c["cls"] == "touch":
+            c.update(plb=c["lb"] + 0.1 * (c["ub"] - c["lb"]), pub=c["ub"] - 0.1 * (c["ub"] - c["lb"]))
+    return dict(D=D, coords=coords, spelling=draw(st.sampled_from(["default", "True", "1", "np.True_", "np.int64(1)", "False", "0", "np.False_"])))
+
+
+def body_bads(case):
+    import pybads.bads.bads as BB
+
+    coords, D = case["coords"], case["D"]
+    val = {"True": True, "1": 1, "np.True_": np.True_, "np.int64(1)": np.int64(1), "False": False, "0": 0, "np.False_": np.False_}.get(case["spelling"])
+    opts = {"display": "off"}
+    if case["spelling"] != "default":
+        opts["nonlinear_scaling"] = val
+    enabled = True if case["spelling"] == "default" else bool(val)
+    lb = np.array([c["lb"] for c in coords])
+    ub = np.array([c["ub"] for c in coords])
+    plb = np.array([c["plb"] for c in coords])
+    pub = np.array([c["pub"] for c in coords])
+    x0 = np.array([0.5 * (c["plb"] + c["pub"]) for c in coords])
+    v = []
+    try:
+        b = BB.BADS(lambda x: 0.0, x0, lb if np.all(np.isfinite(lb)) else None if np.all(np.isinf(lb)) else lb,
+                    ub if np.all(np.isfinite(ub)) else None if np.all(np.isinf(ub)) else ub, plb, pub, options=opts)
+    except Exception as e:  # noqa: BLE001
+        return dict(violations=[], labels=["bads", "bads:ctor-" + type(e).__name__], nontrivial=False, oracle_evals=0, sample=None)
+    got = [bool(x) for x in np.asarray(b.var_transf.apply_log_t).ravel()]
+    # the constructor may have moved plausible bounds inward / expanded them: judge on the bounds the transformer received
+    vt = b.var_transf
+    exp = []
+    for i in range(D):
+        c = dict(lb=float(np.ravel(vt.orig_lb)[i]), ub=float(np.ravel(vt.orig_ub)[i]), plb=float(np.ravel(vt.orig_plb)[i]), pub=float(np.ravel(vt.orig_pub)[i]))
+        exp.append(ref_is_log(c, enabled))
+    if got != exp:
+        v.append(viol("e:log-flag-through-bads", f"options nonlinear_scaling={case['spelling']}: apply_log_t={got} expected {exp} for coords={coords}",
+                      site=case["spelling"]))
+    nt = any(exp) or (not enabled and any(ref_is_log(dict(lb=c["lb"], ub=c["ub"], plb=c["plb"], pub=c["pub"]), True) for c in coords))
+    return dict(violations=v, labels=["bads", "bads:" + case["spelling"]] + (["bads:log-eligible"] if nt else []), nontrivial=nt, oracle_evals=1, sample=case)
+
+
 def plan(tier):
-    return [("unit", 16)] + ([("fuzz", 16)] if tier == "thorough" else [])
+    return [("unit", 16), ("bads", 4)] + ([("fuzz", 16)] if tier == "thorough" else [])
 
 
 def run_part(res, part, tier, seed, shard, nshards):
+    if part == "bads":
+        return engine.hyp_sweep(res, bads_cases(), body_bads, runlevel.shard_count(600 if tier == "quick" else 20000, shard, nshards), seed * 1000 + 800 + shard)
     if part == "fuzz":
         # coverage-guided campaign (atheris/libFuzzer) on the same Hypothesis test, empty corpus, fixed -runs and -seed
         return engine.run_fuzz_part(res, "C11", "fuzz", 40000, seed, shard)
@@ -287,11 +339,16 @@ def run_part(res, part, tier, seed, shard, nshards):
 
 
 def minimise(part, tier, sig, case, seed):
+    if part == "bads":
+        m = engine.hyp_minimise(bads_cases(), lambda c: any(engine.signature(x) == sig for x in body_bads(c)["violations"]), 2000, seed)
+        return {"case": m or case, "note": "hypothesis shrink" if m else "unminimised"}
     m = engine.hyp_minimise(cases(), lambda c: any(engine.signature(x) == sig for x in check_case(c)[0]), 5000, seed)
     return {"case": m or case, "note": "hypothesis shrink" if m else "unminimised"}
 
 
 def replay(part, case):
+    if part == "bads":
+        return body_bads(case)["violations"]
     return check_case(case)[0]
 
 
